@@ -132,6 +132,18 @@ def check_pair(a, b):
                            f"a={a} b={b}: reference says a {rel} b (pointwise on all times) but "
                            f"a<b={lt} b<a={gt} a==b={eq}", case))
         return out
+    # the derived operators must agree with <, == (update_min uses <=)
+    try:
+        A, B = mk(a), mk(b)
+        ops = {"<=": bool(A <= B), ">": bool(A > B), ">=": bool(A >= B)}
+        want_ops = {"<=": rel in ("lt", "eq"), ">": rel == "gt", ">=": rel in ("gt", "eq")}
+        if ops != want_ops:
+            bad = sorted(k for k in ops if ops[k] != want_ops[k])
+            out.append(Failure("C08.derived_operator", f"C08.derived_operator|{'+'.join(bad)}",
+                               f"a={a} b={b}: reference a {rel} b, but {ops}", case))
+    except Exception as e:  # noqa
+        out.append(Failure("C08.exception_on_comparable", "C08.exception_on_comparable|derived",
+                           f"<=,>,>= on ({a},{b}) raised {type(e).__name__}: {e}", case))
     # min / update_min as used by connect_one and the closures
     try:
         from mosaik.scenario import update_min
